@@ -366,6 +366,10 @@ class PipeInput : public Engine {
             n = r.range(257, 600); // more than 256 dictionary entries: 2-byte indices
             cls = r.chance(1, 2) ? ARR_FULL64 : ARR_SORTED;
         }
+        if (entry.rfind("dict", 0) == 0 && r.chance(1, tier == Tier::Thorough ? 60 : 500)) {
+            n = 65537 + r.below(400); // more than 65536 dictionary entries: 3-byte indices
+            cls = ARR_FULL64;
+        }
         if (entry.rfind("elias", 0) == 0) cls = r.chance(1, 2) ? ARR_SMALL : (r.chance(1, 2) ? ARR_ZERORUNS : ARR_FULL64);
         if (entry == "rle.runcount" && r.chance(2, 3)) cls = ARR_LOWCARD;
         if (entry == "bp128.getcount") {
@@ -476,6 +480,19 @@ class PipeInput : public Engine {
                 p.ops.push_back(f);
             }
         }
+        if (entry == "bitmap.decode" && r.chance(1, 6)) {
+            // a run table whose announced size sits on the deserialiser's own limits, with a payload of
+            // exactly (or almost) the announced size
+            Op g;
+            g.kind = "runtable";
+            static const uint64_t counts[] = {0, 1, 2, 4096, 65535, 65536, 65537, 16384};
+            uint64_t nr = r.pick(counts);
+            g.set("runs", nr);
+            g.set("card", r.chance(1, 2) ? nr : r.pick(counts));
+            g.set("short", r.chance(1, 3) ? r.range(1, 5) : 0); // bytes missing from the payload
+            g.set("fillseed", r.next() & 0xffff);
+            p.ops.push_back(g);
+        }
         // hostile bytes from scratch
         size_t ng = r.range(1, 4);
         for (size_t i = 0; i < ng; i++) {
@@ -528,6 +545,26 @@ class PipeInput : public Engine {
                 size_t cap = (size_t)f.u("cap", 16);
                 size_t gbits = std::min<size_t>(f.u("bits", in.size() * 8), in.size() * 8);
                 if (!one_case(entry, "garbage", in, gbits, cap, oi, out)) return finish(out);
+                continue;
+            }
+            if (f.kind == "runtable") {
+                uint64_t nr = f.u("runs");
+                uint32_t card = (uint32_t)f.u("card"), nr32 = (uint32_t)nr;
+                size_t payload = (size_t)nr * 4;
+                size_t cut = std::min<size_t>(f.u("short"), payload);
+                in.assign(9 + payload - cut, 0);
+                in[0] = 2; // RUNS
+                memcpy(&in[1], &card, 4);
+                memcpy(&in[5], &nr32, 4);
+                Rng fr(f.u("fillseed") + 7);
+                uint32_t start = 0;
+                for (size_t q = 0; q + 4 <= payload - cut; q += 4) { // ascending runs of small lengths
+                    uint16_t st16 = (uint16_t)start, ln = (uint16_t)fr.range(0, 2);
+                    memcpy(&in[9 + q], &st16, 2);
+                    memcpy(&in[9 + q + 2], &ln, 2);
+                    start += 1 + (uint32_t)fr.below(2);
+                }
+                if (!one_case(entry, "runtable", in, 0, 0, oi, out)) return finish(out);
                 continue;
             }
             if (f.kind != "fault" || !have) continue;
@@ -670,12 +707,14 @@ class PipeCapacity : public Engine {
         std::string d = r.pick(decs);
         op.sets("decoder", d);
         size_t n = gen_length(r, tier);
-        if (r.chance(1, 50)) n = r.pick(std::vector<size_t>{385, 700, 1000, 4097, 5000}); // beyond the usual sizes
+        if (r.chance(1, 40)) n = r.pick(std::vector<size_t>{385, 700, 1025, 1100, 2049, 4097, 5000, 9000}); // beyond the usual sizes: threshold-gated bulk paths
         int cls = (int)r.below(ARR_NCLASSES);
         if (d == "group.decode") n = r.range(1, 64);
         if (d.rfind("elias", 0) == 0) cls = r.chance(1, 2) ? ARR_SMALL : (r.chance(1, 2) ? ARR_ZERORUNS : ARR_FULL64);
         if (d.rfind("bp128", 0) == 0 && r.chance(1, 3)) cls = ARR_ZERORUNS;
         if (d.rfind("rle", 0) == 0 && r.chance(1, 3)) cls = ARR_ZERORUNS;
+        if (n >= 1000 && (d.rfind("rle", 0) == 0 || d.rfind("bp128", 0) == 0 || d == "adaptive.DELTA") && r.chance(2, 3))
+            cls = r.chance(1, 2) ? ARR_LONGRUNS : ARR_ZERORUNS;
         if (d.rfind("bp128d", 0) == 0) cls = r.chance(1, 2) ? ARR_SORTED : ARR_STRICT_INC16;
         if (d == "adaptive.BITMAP") cls = ARR_STRICT_INC16;
         if ((d == "adaptive.DICT" || d == "dict.decode_into" || d.rfind("rle", 0) == 0) && r.chance(1, 2))
